@@ -47,6 +47,7 @@ type FuncContract struct {
 	Used      bool
 	Functype  bool // contract for a function type / interface method
 	InputPath bool
+	IntMode   bool
 }
 
 type SpecFunc struct {
@@ -76,6 +77,7 @@ type Lemma struct {
 	PkgPath string
 	File    string
 	Line    int
+	IntMode bool
 }
 
 type Contracts struct {
@@ -93,7 +95,7 @@ func newContracts() *Contracts {
 
 var clauseKW = map[string]bool{"func": true, "spec": true, "lemma": true, "ghostheap": true, "props": true, "trusted": true, "inline": true,
 	"pure": true, "may_panic": true, "requires": true, "ensures": true, "assume": true, "modifies": true, "loop": true, "functype": true,
-	"iface": true, "input_path": true, "no_safety": true, "package": true}
+	"iface": true, "input_path": true, "no_safety": true, "package": true, "mode": true}
 
 var labelRe = regexp.MustCompile(`^\[([A-Za-z0-9_.$#-]+)\]\s*`)
 
@@ -205,6 +207,10 @@ func (cs *Contracts) loadContractFile(path string, pkgPath string) error {
 				return fail("lemma needs a name")
 			}
 			lm := &Lemma{Name: head[0], PkgPath: pkgPath, File: path, Line: rc.line, Src: strings.TrimSpace(rest[i+1:])}
+			if len(head) > 1 && head[1] == "int" {
+				lm.IntMode = true
+				head = append(head[:1], head[2:]...)
+			}
 			if len(head) > 2 && head[1] == "props" {
 				lm.Props = head[2:]
 			}
@@ -236,6 +242,15 @@ func (cs *Contracts) loadContractFile(path string, pkgPath string) error {
 				cur.NoSafety = true
 			case "input_path":
 				cur.InputPath = true
+			case "mode":
+				switch strings.TrimSpace(rest) {
+				case "int":
+					cur.IntMode = true
+				case "bv":
+					cur.IntMode = false
+				default:
+					return fail("mode int|bv")
+				}
 			case "requires", "ensures", "assume":
 				c, err := mkClause(kw, rest, 0)
 				if err != nil {
